@@ -301,6 +301,17 @@ class Ctx:
         self.cov['forbidden_tokens'] = toks
         if toks:
             broken.append('forbidden tokens: ' + '; '.join(toks[:3]))
+        if self.tier == 'thorough':
+            # the toolchain's independent re-checker replays the compiled declarations of the property module (and of the
+            # thorough-only modules) through the kernel, outside the elaborator that produced them
+            chk = {}
+            for m in mods:
+                with Lock(os.path.join(LEAN, '.verif.lock')):
+                    rc, out = sh(['lake', 'env', 'leanchecker', m], cwd=LEAN, timeout=1800)
+                chk[m] = 'ok' if rc == 0 else 'failed: ' + out[-300:]
+                if rc != 0:
+                    broken.append('leanchecker rejects %s' % m)
+            self.cov['leanchecker'] = chk
         if broken:
             self.cov['broken'] += ['obligation:' + n for n in broken]
         return broken
